@@ -89,3 +89,6 @@ CHECKS = {
 for _pid, _mod in {
 }.items():
     CHECKS[_pid] = _lazy(_mod)
+
+for _pid, _fn in {"C02": "c02", "C03": "c03", "C06": "c06"}.items():
+    CHECKS[_pid] = _lazy("rules", _fn)
